@@ -5,6 +5,7 @@
 //!    and reports, per case, whether every observed outcome is admitted by the specification;
 //!  * `<area>-drive ...`: drives the implementation with seeded random histories and writes an
 //!    ndjson trace that a `*Trace.tla` specification validates (impl -> spec).
+mod bytecode;
 mod cards;
 mod drive;
 mod gen;
@@ -45,6 +46,8 @@ fn main() {
         "alloc-drive" => vmtrace::alloc_drive(rest),
         "gc-drive" => vmtrace::gc_drive(rest),
         "life-drive" => vmtrace::life_drive(rest),
+        "bc-drive" => bytecode::drive(rest),
+        "bc-run" => util::run_cases(rest, bytecode::run_case),
         "cards-show" => drive::show(rest),
         "table-replay" => util::run_cases(rest, tables::replay_case),
         "table-drive" => tables::drive(rest),
